@@ -125,6 +125,10 @@ func c14One(c *vk.Case, set c14Set, seed uint64) {
 		c.Obs("runs_with_renamed_columns", 1)
 	}
 	co := gen.ChainOpts{Seed: r.U64(), MinTxs: 2, MaxTxs: 3, MaxLogs: 2, MinTraces: 2, MaxTraces: 3, Distinct: true}
+	if set.mode == model.ModeTrace && r.Bool() {
+		co.Rewards = 2 // reward traces at the end of trace_block, naming no transaction
+		c.Obs("runs_with_reward_traces", 1)
+	}
 	if set.mode == model.ModeLog {
 		d.EventName = "Probe"
 		d.Inputs = c14Event
